@@ -416,7 +416,7 @@ type LogFunction struct {
 
 func NewLogFunction() *LogFunction {
 	return &LogFunction{
-		BaseFunction: NewBaseFunction("log", TypeMath, "数学函数", "计算以10为底的对数", 1, 1),
+		BaseFunction: NewBaseFunction("log", TypeMath, "数学函数", "计算对数：log(number) 以10为底，log(base, number) 指定底数", 1, 2),
 	}
 }
 
@@ -425,6 +425,22 @@ func (f *LogFunction) Validate(args []any) error {
 }
 
 func (f *LogFunction) Execute(ctx *FunctionContext, args []any) (any, error) {
+	// log(base, number) as documented in the functions guide; the one-argument form
+	// stays the base-10 logarithm.
+	if len(args) == 2 {
+		base, err := cast.ToFloat64E(args[0])
+		if err != nil {
+			return nil, err
+		}
+		num, err := cast.ToFloat64E(args[1])
+		if err != nil {
+			return nil, err
+		}
+		if base <= 0 || base == 1 || num <= 0 {
+			return nil, fmt.Errorf("log: base must be positive and not 1, value must be positive")
+		}
+		return math.Log(num) / math.Log(base), nil
+	}
 	val, err := cast.ToFloat64E(args[0])
 	if err != nil {
 		return nil, err
